@@ -188,6 +188,24 @@ pub mod tstd {
         ensures r == (if x == i32::MIN { i32::MIN } else if x < 0 { (-(x as int)) as i32 } else { x });
     pub assume_specification[i32::saturating_abs](x: i32) -> (r: i32)
         ensures r == (if x == i32::MIN { i32::MAX } else if x < 0 { (-(x as int)) as i32 } else { x });
+    pub assume_specification[i32::signum](x: i32) -> (r: i32)
+        ensures r == (if x > 0 { 1i32 } else if x < 0 { -1i32 } else { 0i32 });
+    pub assume_specification[i32::saturating_add](x: i32, y: i32) -> (r: i32)
+        ensures r == (if x + y > i32::MAX { i32::MAX } else if x + y < i32::MIN { i32::MIN } else { (x + y) as i32 });
+    pub assume_specification[i32::saturating_sub](x: i32, y: i32) -> (r: i32)
+        ensures r == (if x - y > i32::MAX { i32::MAX } else if x - y < i32::MIN { i32::MIN } else { (x - y) as i32 });
+    pub assume_specification[i32::saturating_mul](x: i32, y: i32) -> (r: i32)
+        ensures r == (if x * y > i32::MAX { i32::MAX } else if x * y < i32::MIN { i32::MIN } else { (x * y) as i32 });
+    pub assume_specification[i32::unsigned_abs](x: i32) -> (r: u32)
+        ensures r == (if x < 0 { -(x as int) } else { x as int });
+    // further f32 library functions a change might start using: deterministic, otherwise uninterpreted
+    pub assume_specification[f32::trunc](x: f32) -> (r: f32) ensures r == f_trunc(x);
+    pub assume_specification[f32::floor](x: f32) -> (r: f32) ensures r == f_floor(x);
+    pub assume_specification[f32::abs](x: f32) -> (r: f32) ensures r == f_abs(x);
+    pub assume_specification[f32::signum](x: f32) -> (r: f32) ensures r == f_signum(x);
+    pub assume_specification[f32::to_bits](x: f32) -> (r: u32) ensures r == f_to_bits(x);
+    pub assume_specification[f32::is_infinite](x: f32) -> (r: bool) ensures r == f_is_infinite(x);
+    pub assume_specification[f32::is_sign_negative](x: f32) -> (r: bool) ensures r == f_is_sign_negative(x);
     pub assume_specification[f32::is_finite](x: f32) -> (r: bool) ensures r == f_is_finite(x);
     pub assume_specification[f32::is_nan](x: f32) -> (r: bool) ensures r == f_is_nan(x);
     pub uninterp spec fn cmp_min_spec<T>(a: T, b: T) -> T;
@@ -328,6 +346,11 @@ pub mod spec {
         ensures s@ == k@ ==> (#[trigger] vstd::std_specs::hash::contains_borrowed_key::<String, V, str>(m, k) == #[trigger] m.contains_key(s));
     pub broadcast axiom fn ax_string_borrow_maps<V>(m: Map<String, V>, k: &str, s: String, v: V)
         ensures s@ == k@ ==> (#[trigger] vstd::std_specs::hash::maps_borrowed_key_to_value::<String, V, str>(m, k, v) == (#[trigger] m.contains_key(s) && m[s] == v));
+    /// A-string-eq: `&String == &String` is character-wise equality (vstd specifies this only for `String == String` by value)
+    #[verifier::allow(broadcast_without_trigger)]
+    pub broadcast axiom fn ax_string_obeys_eq() ensures <String as PartialEqSpec>::obeys_eq_spec();
+    pub broadcast axiom fn ax_string_eq_spec(a: String, b: String)
+        ensures #[trigger] a.eq_spec(&b) == (a@ == b@);
     // A-clone: the derived Clone of the crate's data types returns a structurally equal value
     pub broadcast axiom fn ax_clone_item(a: crate::push::item::Item, b: crate::push::item::Item) ensures #[trigger] cloned(a, b) ==> a == b;
     pub broadcast axiom fn ax_clone_boolvector(a: crate::push::vector::BoolVector, b: crate::push::vector::BoolVector) ensures #[trigger] cloned(a, b) ==> a == b;
@@ -344,7 +367,7 @@ pub mod spec {
     pub assume_specification[<crate::push::graph::Graph as Clone>::clone](a: &crate::push::graph::Graph) -> (b: crate::push::graph::Graph) ensures b == *a;
     pub assume_specification[<crate::push::io::PushMessage as Clone>::clone](a: &crate::push::io::PushMessage) -> (b: crate::push::io::PushMessage) ensures b == *a;
     pub broadcast group group_clone {
-        ax_string_key_model, ax_string_borrow_contains, ax_string_borrow_maps, ax_clone_item, ax_clone_boolvector, ax_clone_intvector, ax_clone_floatvector, ax_clone_index, ax_clone_graph, ax_clone_message,
+        ax_string_key_model, ax_string_obeys_eq, ax_string_eq_spec, ax_string_borrow_contains, ax_string_borrow_maps, ax_clone_item, ax_clone_boolvector, ax_clone_intvector, ax_clone_floatvector, ax_clone_index, ax_clone_graph, ax_clone_message,
     }
     
     /// C01's resource envelope: every stack, vector and record is smaller than 2^31-1 items.
@@ -375,6 +398,13 @@ pub mod spec {
     }
     
     
+    pub uninterp spec fn f_trunc(x: f32) -> f32;
+    pub uninterp spec fn f_floor(x: f32) -> f32;
+    pub uninterp spec fn f_abs(x: f32) -> f32;
+    pub uninterp spec fn f_signum(x: f32) -> f32;
+    pub uninterp spec fn f_to_bits(x: f32) -> u32;
+    pub uninterp spec fn f_is_infinite(x: f32) -> bool;
+    pub uninterp spec fn f_is_sign_negative(x: f32) -> bool;
     pub uninterp spec fn f_is_finite(x: f32) -> bool;
     pub uninterp spec fn f_is_nan(x: f32) -> bool;
     pub uninterp spec fn f_sin(x: f32) -> f32;
